@@ -22,13 +22,22 @@ def main():
     c = c18.cfg_tuple(config.get_config_context(validation_depth_default=None))
     vio = []
     cells = 0
+    # expectation is computed from the *documented meaning of the assignment*, not from what pandera parsed
+    enabled = {"True": True, "False": False}.get(os.environ.get("PANDERA_VALIDATION_ENABLED"), True)
+    gdepth = os.environ.get("PANDERA_VALIDATION_DEPTH")
     for (backend, container, name, level, kind, mk_s, mk_d) in depthcases.all_cases():
         for lazy in (False, True):
             cells += 1
-            # expectation is computed from the *documented meaning of the assignment*, not from what pandera parsed
-            enabled = {"True": True, "False": False}.get(os.environ.get("PANDERA_VALIDATION_ENABLED"), True)
-            gdepth = os.environ.get("PANDERA_VALIDATION_DEPTH")
             vio += c18.eval_case(backend, container, name, level, kind, mk_s, mk_d, lazy, enabled, None, gdepth)
+            # a context setting inside a process whose environment also configures the depth: the innermost setting wins
+            for cdepth in ("SCHEMA_ONLY", "DATA_ONLY", "SCHEMA_AND_DATA"):
+                cells += 1
+                with config.config_context(validation_depth=config.ValidationDepth[cdepth]):
+                    vio += c18.eval_case(backend, container, name, level, kind, mk_s, mk_d, lazy, enabled, cdepth, gdepth)
+            if not enabled:
+                cells += 1
+                with config.config_context(validation_enabled=True):
+                    vio += c18.eval_case(backend, container, name, level, kind, mk_s, mk_d, lazy, True, None, gdepth)
     after = c18.cfg_tuple(config.get_config_context(validation_depth_default=None))
     if after != c:
         vio.append(("env|context-changed-by-validate", f"{c} -> {after}"))
